@@ -249,9 +249,9 @@ PROPERTIES = {
                 "non-trivial = both pointers non-root; distinct = distinct case lines",
     },
     "C19": {
-        "regen": {"groups": ["Token"]},
-        "technique": "MEASUREMENT (counting global allocator) for the allocation counts; " + REGEN_TECHNIQUE + " for the Cow-variant logic",
-        "level_suffix": regen_note("Token::new, Token::decoded, Token::from_encoded (src/token.rs) -- the Cow variant each builds"),
+        "regen": {"groups": ["Token", "Pointer", "PtrOps", "Slice", "Buf", "PtrBuild", "Conv"]},
+        "technique": "MEASUREMENT (counting global allocator) for the allocation counts; " + REGEN_TECHNIQUE + " for the Cow-variant logic and for a STATIC allocation-site count of every translated function",
+        "level_suffix": regen_note("Token::new, Token::decoded, Token::from_encoded (src/token.rs) -- the Cow variant each builds") + " STATIC ALLOCATION SITES (DESIGN 13.14): beside every translated function the translator emits <f>_alloc_sites, the number of places in its body and (transitively) in the translated functions it calls where a std operation that can allocate occurs (the translator's table is closed, so nothing else can occur); C19_src_zero_copy_operations_have_no_allocation_site proves the count is 0 for parsing a borrowed pointer, from_encoded, token / component iteration, first / last / get, every split, parent, all eight range forms, strip_prefix / suffix, starts / ends_with, intersection and PointerBuf::new / root - for ALL inputs no allocating operation is even reachable in the source as it stands. (Box::into_buf and Pointer::root are outside the translated subset: measured only.)",
         "runs": [{"suite": "alloc", "profile": "debug"}, {"suite": "alloc", "profile": "release"}],
         "level_text": "PARTIAL BY NATURE (DESIGN 6/C19, 9): heap allocation is a runtime fact and is MEASURED, not proved - a counting #[global_allocator] in the harness counts allocations "
                       "around each listed operation (parse ok/err, from_encoded, tokens/components iteration, first/last/get, every split, parent, all range forms, strip_prefix/suffix, starts/ends_with, "
